@@ -5,7 +5,8 @@ from ceremony import *
 
 PROP = "C07"
 import c17cer
-COQ_TARGETS = ceremony.COQ_TARGETS + c17cer.COQ_TARGETS
+COQ_TARGETS = ceremony.COQ_TARGETS + list(ceremony.WCOQ_TARGETS) + c17cer.COQ_TARGETS
+USER_OK = {"presence": True, "verification": True}
 HARNESS_BINS = ceremony.HARNESS_BINS + c17cer.HARNESS_BINS
 def replay(payload):
     if payload.get("domain") == "u2fcer":
@@ -105,6 +106,18 @@ def single_faults(run):
                 o = dict(op); o["cancel_after"] = n
                 scs.append(scenario(store_kind=store, content=content, config={"counter": True, "hmac": {"without_uv": True, "on_mc": True}},
                                     ops=[o], yield_=True))
+    # extension processing can fail on its own (a PRF evaluation that needs the verification-only secret on a ceremony without
+    # verification, ...): whatever the configuration and the request, an error comes before the save
+    for without_uv in (False, True):
+        for on_mc in (False, True):
+            for uv in (False, True):
+                for ext in (prf_ext_mc(first=b"\x05" * 32), prf_ext_mc(first=b"\x05" * 32, second=b"\x06" * 32), prf_ext_mc(hmac_secret=True, with_prf=False),
+                            prf_ext_mc(first=b"\x05" * 32, mc=True)):
+                    for store in ("ref", "memory"):
+                        scs.append(scenario(store_kind=store, content=shapes[0][1], config={"counter": True, "hmac": {"without_uv": without_uv, "on_mc": on_mc}},
+                                            user={"script": [{"presence": True, "verification": uv}] * 2},
+                                            ops=[{"op": "make_credential", "req": mc_req(rng, rk=True, uv=uv, ext=ext)},
+                                                 {"op": "get_assertion", "req": ga_req(rng, allow=[cid], uv=uv, ext=prf_ext_ga(first=b"\x07" * 32))}]))
     if run.tier != "quick":
         for kind, content, op in shapes:
             for a1 in range(0, 5):
@@ -112,6 +125,74 @@ def single_faults(run):
                     scs.append(scenario(store_kind="ref", content=content, config={"counter": True}, ops=[dict(op)],
                                         faults=[{"at": a1, "code": 0x28}, {"at": a2, "code": 0x7F}]))
     return scs
+
+
+def client_level(run):
+    """the WebAuthn entry points (Client::register / Client::authenticate): whatever the request's members say - also the ones
+    the client does not act on (attestation preference, timeout, hints, formats, attachment) - and whichever store call fails, an
+    error leaves the store exactly as it was (an authentication may have advanced the selected credential's counter) and a success
+    means the store accepted the credential before the response existed.  Judged on the observation, then tied to Auth/Client.v."""
+    rng = run.rng
+    cid = bytes([0x7C]) * 16
+    scs = []
+    for kind in ("ref", "memory", "option", "arc_mutex_ref"):
+        content = [mk_passkey(rng, "example.com", cred_id=cid, counter=3, keyidx=0)]
+        regs = [reg_op(rng, selection={"rk": "required", "require_rk": True, "uv": "required"}, ext=wext(cred_props=True))]
+        for k, vals in ceremony.IGNORED_MEMBERS.items():
+            regs += [ceremony.with_ignored(reg_op(rng), **{k: v}) for v in vals[1:]]
+        regs += [ceremony.with_ignored(reg_op(rng), attachment=a) for a in ("platform", "cross-platform")]
+        regs.append(ceremony.with_ignored(reg_op(rng, exclude=[bytes(16)]), attestation="enterprise", timeout=1, hints=["hybrid"], attestation_formats=["packed"], attachment="platform"))
+        for r in regs:
+            scs.append(client_scenario(store_kind=kind, content=content, config={"counter": True}, user={"script": [USER_OK] * 2},
+                                       ops=[r, ceremony.with_ignored(auth_op(rng, allow=[cid]), timeout=r["req"].get("timeout"), hints=r["req"].get("hints"),
+                                                                     attestation=r["req"].get("attestation"), attestation_formats=r["req"].get("attestation_formats"))]))
+        codes = [0x01, 0x28, 0x7F] if run.tier == "quick" else [0x01, 0x19, 0x22, 0x27, 0x28, 0x2E, 0x30, 0x7F, 0xF0]
+        for at in range(0, 7):
+            for code in codes:
+                for r in (regs[0], regs[-1]):
+                    scs.append(client_scenario(store_kind=kind, content=content, config={"counter": True}, user={"script": [USER_OK] * 2},
+                                               faults=[{"at": at, "code": code}], ops=[r, auth_op(rng, allow=[cid])]))
+    binary = common.harness_build("ceremony")
+    outs = ceremony.run_scenarios(binary, scs)
+    fails = []
+    for sc, out in zip(scs, outs):
+        if "ops" not in out:
+            fails.append((sc, out, "the client ceremony crashed the process")); continue
+        before = sc["store"]["content"]
+        if sc["store"]["kind"] in ("option", "arc_mutex_option"):
+            before = before[-1:]
+        for op, obs in zip(sc["ops"], out["ops"]):
+            res, after = obs["result"], obs["store_after"]
+            saves = [e for e in obs["log"] if e["c"] == "save"]
+            why = None
+            if op["op"] == "register":
+                if "err" in res and canon(after) != canon(before):
+                    why = "registration returned the error %s but the store changed (%d -> %d credentials)" % (res["err"], len(before), len(after))
+                if "ok" in res and not any("ok" in e["r"] for e in saves):
+                    why = "registration succeeded but no save was accepted by the store"
+                if "err" in res and "AuthenticatorError" not in json.dumps(res["err"]) and any(e["c"] in ("save", "update") for e in obs["log"]) and "ok" in obs.get("domain", {"ok": 1}):
+                    why = why or "registration failed with the client-side error %s after the store was written" % (res["err"],)
+            else:
+                strip = lambda l: canon([dict(p, counter=None) for p in l])
+                if strip(after) != strip(before):
+                    why = "authentication changed more than a signature counter"
+                if "ok" in res and any(e["c"] == "update" and "err" in e["r"] for e in obs["log"]):
+                    why = "an assertion was returned although the store refused its counter value"
+            if why:
+                fails.append((sc, obs, why))
+            before = after
+    for sc, obs, why in fails[:3]:
+        run.violation({"kind": "client level: " + why, "scenario": sc, "observed": obs})
+    common.coq_build(list(ceremony.WCOQ_TARGETS))
+    flat = [x for x in ceremony.wcases_of(scs, outs) if x[4] is not None]
+    res = common.coq_eval(PROP + "-client", ceremony.WPREAMBLE, [t for *_, t in flat], ["wagree"], shard=60)
+    if not fails and res["wagree"]:
+        si, oi, op, obs, t = flat[res["wagree"][0]]
+        run.violation({"kind": "client model and implementation disagree; the client-level store oracle is true on all %d observations" % len(flat),
+                       "broken": "correspondence ceremony/%s (Auth.ClientCheck.wagree)" % op["op"], "scenario": scs[si], "observed": obs}, found_input=False)
+    run.cov["client_level"] = {"scenarios": len(scs), "operations": len(flat), "oracle_failures": len(fails), "model_disagreements": len(res["wagree"]),
+                               "rule": "Client::register then Client::authenticate x store kind x {every value of every member the client ignores, alone and together} "
+                                       "plus store faults at call index 0..6 x status codes"}
 
 
 def check(run):
@@ -129,6 +210,7 @@ def check(run):
     # 0..300 bytes, store faults at one call - an error leaves the store as it was, a store error while saving is reported,
     # an authentication never mutates (model Auth/U2f.v, theorems c17_register_store_error_is_reported /
     # c17_authenticate_never_mutates; oracle and replay shared with C17)
+    client_level(run)
     import c17cer
     run.cov["u2f_ceremonies"] = {k: v for k, v in c17cer.check_ceremony(run, tag="C07-u2f").items() if k not in ("sample", "rule")}
     # a shared store whose lock is briefly held by another handle while the ceremony reaches a store call (C19's deterministic
